@@ -49,6 +49,8 @@ class Check:
         self.obligations: List[Dict[str, Any]] = []
         self.findings: List[Finding] = []
         self.notes: List[str] = []
+        for qn, what in sorted((getattr(program, "inlined", None) or {}).items()):
+            self.notes.append(f"program model: {qn}: {what}")
         self.rules_run: Dict[str, Dict[str, int]] = {}
         self.functions_consulted: set = set()
         self.modules_consulted: set = set()
@@ -157,6 +159,9 @@ class Check:
               f"{len(knowns)} known finding(s); {time.time() - self.t0:.2f}s")
         for rid, st in sorted(self.rules_run.items()):
             print(f"   {rid}: {st['instances']} instances, {st['failed']} failed")
+        for nt in self.notes:
+            if nt.startswith("program model:"):
+                print(f"   note: {nt}")
         return 1 if violations else 0
 
     def _write_evidence(self, violations: List[Finding], knowns: List[Finding]) -> None:
